@@ -403,7 +403,7 @@ func (p *Program) poolSupplies(pool ssa.Value, t types.Type) (bool, string) {
 					if !ok || calleeName(c) != "(*sync.Pool).Put" {
 						return
 					}
-					if !p.poolIsField(c.Common().Args[0], f) {
+					if p.poolName(c.Common().Args[0]) != p.fieldKey(f) {
 						return
 					}
 					n++
